@@ -115,20 +115,24 @@ CLAIMS = {
  'C18': dict(
    text="Lean theorems: remove_event makes exactly the event with that id unretrievable (filter), leaves markers, extra tables and the map untouched, leaves every "
         "other event readable, and leaves no marker (a removed event is not refused as duplicate/deleted because of the removal); vanish only removes index "
-        "entries and touches nothing else; storing an ephemeral event succeeds and leaves the retrievable set unchanged. That vanish removes exactly the "
-        "authored events plus p-tagged gift wraps is decided by correspondence + the abstract specification after every step (gift wraps naming the author "
-        "first / later / as a non-first value / in upper case).",
-   note=PROOF_NOTE + 'Modelled, not verified: LMDB (ordered maps, snapshot reads inside a write transaction, atomic commit), the mmap-append event map; the seven index tables are modelled as functions of the set of indexed events with range scans as filter+key-order sort. ' + "PARTIAL: exactness of vanish's target set is not a theorem yet (needs completeness of the author and kind+tag query plans).",
+        "entries and touches nothing else; storing an ephemeral event succeeds and leaves the retrievable set unchanged. In every reachable state vanish removes exactly the events authored by the key plus the "
+        "kind-1059 events with a p tag whose value is the key's lower-case hex, and nothing else (vanish_exact, from the completeness of the author and "
+        "kind+tag plans). Correspondence + the abstract specification after every step (gift wraps naming the author first / later / as a non-first value / "
+        "in upper case; keys with gift wraps but no events of their own).",
+   note=PROOF_NOTE + 'Modelled, not verified: LMDB (ordered maps, snapshot reads inside a write transaction, atomic commit), the mmap-append event map; the seven index tables are modelled as functions of the set of indexed events with range scans as filter+key-order sort. ' + "vanish_exact assumes fewer retrievable events than u32::MAX (the two internal queries run without a limit).",
    technique="Lean 4 proof + differential correspondence with the abstract specification as direct oracle",
    design="6/C18"),
  'C05': dict(
    text="Lean theorems for every store state, filter, screening function and EVERY index plan of find_events (ids, author+kind, author+tag, kind+tag, tag, "
         "author, scrape; moving since; early exits): every returned event is currently retrievable, matches the filter (with C06: under NIP-01 semantics) "
         "and passed the screen; no duplicates; newest first; at most limit; the redacted flag implies a retrievable matching event screened redacted; "
-        "refused as scraping iff the filter names no ids/authors/tags and no allowance covers it (span saturating); never panics. The completeness half "
-        "(nothing qualifying is missed; under a limit the newest are kept; the answer does not depend on the plan) is decided by correspondence: ~40 "
+        "refused as scraping iff the filter names no ids/authors/tags and no allowance covers it (span saturating); never panics. Completeness, in every "
+        "reachable state, for every NIP-01 filter (tag constraints named by one letter), through whichever plan: a retrievable, matching, screened-in event "
+        "that is missing from the answer implies that exactly limit events were returned and none of them is older (newest_under_limit: the moving since and "
+        "the early range exits never lose a newer event; equal times may fall either side of the cut); hence with a non-binding limit the answer is exactly "
+        "the qualifying set and does not depend on the plan (findEvents_exact, plan_independent, answer_characterised). Correspondence: ~40 "
         "filters after every step of every history on the real store vs the model (exact answer) and vs ValidAnswer of the abstract specification.",
-   note=PROOF_NOTE + 'Modelled, not verified: LMDB (ordered maps, snapshot reads inside a write transaction, atomic commit), the mmap-append event map; the seven index tables are modelled as functions of the set of indexed events with range scans as filter+key-order sort. ' + "PARTIAL: completeness / newest-k / plan independence are not theorems; they rest on the sampled correspondence and the direct ValidAnswer oracle. NIP-01 filters only (single-letter tag names); multi-letter and empty names are run and compared, not judged.",
+   note=PROOF_NOTE + 'Modelled, not verified: LMDB (ordered maps, snapshot reads inside a write transaction, atomic commit), the mmap-append event map; the seven index tables are modelled as functions of the set of indexed events with range scans as filter+key-order sort. ' + "Filters with multi-byte tag names (constructible only with from_parts) are outside the completeness theorems (the tag plans probe by first byte only) and are covered by the correspondence; byte-level LMDB key order is modelled as (time desc, id asc).",
    technique="Lean 4 proof (loop invariant over all seven query plans) + differential correspondence + ValidAnswer oracle from the abstract specification",
    design="6/C05"),
  'C09': dict(
@@ -156,15 +160,19 @@ CLAIMS = {
         "(and not marked by id) is never refused as deleted; an accepted request marks every id it names and every address it names with a time >= its own; in "
         "EVERY reachable state a marked id is not retrievable and every retrievable event is newer than the deletion time of its address (invariant "
         "Covered, by induction over histories incl. rebuild) - so everything an accepted deletion covers is unretrievable in every continuation. "
-        "Correspondence + abstract specification after every step: reply classes, the retrievable set and both marker tables with their times.",
+        "Correspondence + abstract specification after every step: reply classes, the retrievable set and both marker tables with their times; plus forced "
+        "two-thread schedules (a deletion request racing with the event it covers, by id and by address, paused at every yield point, both directions) judged "
+        "by the property text: an accepted request leaves the covered event unretrievable and refused on resubmission.",
    note=PROOF_NOTE + 'Modelled, not verified: LMDB (ordered maps, snapshot reads inside a write transaction, atomic commit), the mmap-append event map; the seven index tables are modelled as functions of the set of indexed events with range scans as filter+key-order sort. ' + "Marker placed on an id that is not stored yet: the code's documented choice.",
    technique="Lean 4 proof (marker monotonicity and the Covered invariant by induction over histories) + differential correspondence with the abstract specification",
    design="6/C11"),
  'C17': dict(
    text="Lean theorems: an unretrievable event is returned by no filter through any of the seven plans; a retrievable event is returned by the filter of its "
-        "own id; the tag-index entry count is a function of what remains indexed and is zero when nothing is. The agreement of ALL access paths (author, "
-        "author+kind, each tag value alone / with author / with kind, time window) and the four entry counts = number of retrievable events are decided by "
-        "correspondence after every step: the self-filter family per event seen vs the specification, and stats on the real store.",
+        "own id; in every reachable state a retrievable event is returned by EVERY filter (single-letter tag names, limit not binding) that its own fields "
+        "satisfy - id, author, author+kind, each tag value alone / with author / with kind, a time window - whichever of the seven plans serves it "
+        "(self_findable, from find_events completeness); the tag-index entry count is a function of what remains indexed and is zero when nothing is. The four "
+        "entry counts = number of retrievable events are decided by correspondence after every step (stats on the real store), as is the self-filter family "
+        "per event seen vs the specification.",
    note=PROOF_NOTE + 'Modelled, not verified: LMDB (ordered maps, snapshot reads inside a write transaction, atomic commit), the mmap-append event map; the seven index tables are modelled as functions of the set of indexed events with range scans as filter+key-order sort. ' + "PARTIAL: the model derives all index tables from the set of indexed events; that the real index/deindex pairs keep the tables in that relation is exactly what the per-step stats and self-filter comparison checks, not a theorem about the Rust.",
    technique="Lean 4 proof (corollaries of the find_events loop invariant) + differential correspondence on entry counts and the self-filter family",
    design="6/C17"),
@@ -185,8 +193,9 @@ CLAIMS = {
         "inside a write transaction and it holds the lock; every state a reader can snapshot satisfies the store invariant (no index entry without complete "
         "bytes: the append precedes the commit); a successfully stored non-ephemeral event is retrievable afterwards, so a second submission of the same event "
         "in either serial order is refused as duplicate (exactly one winner). Correspondence: a schedule controller pauses thread A at each verif yield point "
-        "while thread B runs; replies, blocking behaviour and the battery afterwards must equal the model's serial order; plus 16-thread stress runs judged by "
-        "'some serial order explains it' invariants.",
+        "while thread B runs (pairs of fresh / duplicate / replaceable / deletion / removal operations, always incl. a deletion racing with the event it "
+        "names); replies, blocking behaviour and the battery afterwards must equal the serial order run on the real store, which in turn is compared with the "
+        "model's serial execution; plus 16-thread stress runs judged by 'some serial order explains it' invariants.",
    note=PROOF_NOTE + 'Modelled, not verified: LMDB (ordered maps, snapshot reads inside a write transaction, atomic commit), the mmap-append event map; the seven index tables are modelled as functions of the set of indexed events with range scans as filter+key-order sort. ' + "PARTIAL: the model has the lock, snapshots and atomic commit by construction; LMDB's writer mutex, NO_TLS read transactions, the RwLock/Mutex in mmap-append and the memory model are trusted; a reordering bug inside one yield-free region is out of reach. For ephemeral kinds every submission succeeds (they are never indexed): 'exactly one succeeds' is stated for non-ephemeral events.",
    technique="Lean 4 proof (induction over schedules of a lock-based small-step model) + forced-schedule correspondence through yield points + stress",
    design="6/C14"),
@@ -195,7 +204,8 @@ CLAIMS = {
         "any address, references stay valid iff the base stayed, in particular across any number of non-growing stores; a concrete execution in which one growth "
         "step leaves an earlier reference dangling (growth_may_move_witness): the property as stated is FALSE of the code. Check on the real store: addresses and "
         "bytes of all earlier events re-read after every store across growth steps; an address change at a growth step is the recorded KNOWN FINDING (printed, "
-        "exit 0); changed bytes or an address change without growth are violations.",
+        "exit 0); changed bytes or an address change without growth are violations. Forced two-thread schedules: an event stored while another thread's store "
+        "fails (duplicate / invalid deletion / replaced) at every yield point, both directions, must read back whole by id and offset before and after a further store.",
    note=PROOF_NOTE + 'Modelled, not verified: LMDB (ordered maps, snapshot reads inside a write transaction, atomic commit), the mmap-append event map; the seven index tables are modelled as functions of the set of indexed events with range scans as filter+key-order sort. ' + "PARTIAL / open finding: where the OS places the new mapping is not determined by the program; no small safe repair exists inside pocket (mmap-append maps anew and unmaps the old mapping).",
    technique="Lean 4 proof (validity-iff-base-unchanged, negation witness) + address/byte comparison on the real store with known-findings matching",
    design="6/C15"),
